@@ -107,6 +107,28 @@ fn ring_strategy(ty: Ty, dyadic: bool) -> BoxedStrategy<Part> {
         .boxed()
 }
 
+/// A large simple ring on the dyadic grid: `n` vertices on a circle-like polygon (strictly convex lattice walk),
+/// starting at a generated vertex, in either orientation, open or closed.
+fn big_ring(kind: i32, n: usize, start: usize, rev: bool, close: bool, ox: i32, oy: i32) -> Part {
+    // vertices on a parabola-like convex curve: x = i, y = i*(n-i)  (upper arc), closed through the x axis
+    let mut pts: Vec<V> = (0..n)
+        .map(|i| {
+            let x = i as f64;
+            let y = (i * (n - 1 - i)) as f64 / 256.0;
+            v4(x / 4.0 + ox as f64, y + oy as f64, i as f64, -(i as f64))
+        })
+        .collect();
+    pts.rotate_left(start % n);
+    if close {
+        let f = pts[0];
+        pts.push(f);
+    }
+    if rev {
+        pts.reverse();
+    }
+    Part { kind, pts }
+}
+
 fn check_ring(ty: Ty, i: usize, input: &Part, out: &Part) -> Result<(), Fail> {
     ensure!(out.kind == input.kind, "role-changed", "ring {}: declared kind {} came out as {}", i, input.kind, out.kind);
     if !is_ring_kind(ty, input.kind) {
@@ -418,7 +440,33 @@ impl RandomProp for Rings {
             1 => Just(500_000.0f64),
             1 => Just(4_649_776.0f64),
         ];
-        (tys, hows, 0u8..6, base(), base())
+        let sizes = prop_oneof![Just(127usize), Just(128), Just(129), Just(130), Just(255), Just(256), Just(257), Just(258), Just(384), Just(385), Just(512), Just(513), 100usize..600];
+        let big = (
+            prop_oneof![Just(Ty::Polygon), Just(Ty::PolygonM), Just(Ty::PolygonZ), Just(Ty::Multipatch)],
+            proptest::collection::vec((0i32..=5, sizes, any::<u16>(), any::<bool>(), any::<bool>(), -8000i32..8000, -8000i32..8000), 1..=3),
+        )
+            .prop_map(|(ty, rs)| RingCase {
+                ty,
+                how: How::WithRings,
+                rings: rs
+                    .into_iter()
+                    .map(|(k, n, start, rev, close, ox, oy)| big_ring(if ty == Ty::Multipatch { k } else { k % 2 }, n, start as usize, rev, close, ox, oy))
+                    .map(|mut part| {
+                        // only the dimensions the point type carries
+                        for v in part.pts.iter_mut() {
+                            if !ty.has_z() {
+                                v[2] = F(0);
+                            }
+                            if !ty.carries_m() {
+                                v[3] = F(0);
+                            }
+                        }
+                        part
+                    })
+                    .collect(),
+            })
+            .boxed();
+        let small = (tys, hows, 0u8..6, base(), base())
             .prop_flat_map(|(ty, how, domain, bx, by)| {
                 let dyadic = domain <= 2;
                 let n = if how == How::Macro { 1usize..=2 } else { 1usize..=6 };
@@ -446,7 +494,8 @@ impl RandomProp for Rings {
                     RingCase { ty, how, rings }
                 })
             })
-            .boxed()
+            .boxed();
+        prop_oneof![40 => small, 1 => big].boxed()
     }
     fn cases(env: &Env) -> u64 {
         env.n(4 * 75_000, 4 * 5_000_000)
